@@ -375,12 +375,15 @@ class Signed:
         if not known_unspent(model, p):
             return False, "unknown-spent-output"
         q = model["ins"][p]["src"]
+        if model["ins"][p].get("spk_reencoded"):
+            # a re-encoded spent script need not be one of the standard kinds any more (a witness program written with
+            # OP_PUSHDATA1 is "OP_0 <32 bytes>": true for anyone, even with no unlocking data): the table makes no
+            # claim and the reference interpreter decides
+            return None, "spent-script-re-encoded"
         if q is None:
             return False, "no-unlocking-data"
         if model["ins"][p].get("tampered"):
             return None, "signature-bytes-changed"
-        if model["ins"][p].get("spk_reencoded"):
-            return None, "spent-script-re-encoded"
         view = committed_view(model, p, self.eff[q], self.algo[q])
         if model["unspents"][p][1] != self.spk0[q]:
             if len(view) == 1 and view == self.view0[q]:
